@@ -1203,3 +1203,6 @@ package lorawan
 //@   props C01
 //@   uses registry_ok
 //@   inlines (*PHYPayload).UnmarshalBinary (*MACPayload).UnmarshalBinary (*FHDR).UnmarshalBinary (PHYPayload).MarshalBinary (MACPayload).MarshalBinary (MACPayload).marshalPayload (FHDR).MarshalBinary (MACCommand).MarshalBinary (*PHYPayload).DecodeFOptsToMACCommands decodeDataPayloadToMACCommands (*MACCommand).UnmarshalBinary
+//@ func lemmaC01_cflist_chmask
+//@   props C01
+//@   inlines (CFList).MarshalBinary (*CFList).UnmarshalBinary (CFListChannelMaskPayload).MarshalBinary (*CFListChannelMaskPayload).UnmarshalBinary
